@@ -838,6 +838,24 @@ impl LuaGenerator for DenseLuaGenerator {
         if let Some(method) = &call.get_method() {
             self.push_char(':');
             self.push_str(method.get_name());
+
+            if call.has_method_type_instantiation() {
+                self.push_new_line_if_needed(2);
+                self.raw_push_char('<');
+                self.raw_push_char('<');
+
+                let mut types = call.get_method_type_instantiation().peekable();
+                while let Some(r#type) = types.next() {
+                    self.write_type(r#type);
+                    if types.peek().is_some() {
+                        self.push_char(',');
+                    }
+                }
+
+                self.push_new_line_if_needed(2);
+                self.raw_push_char('>');
+                self.raw_push_char('>');
+            }
         }
 
         self.write_arguments(call.get_arguments());
